@@ -169,9 +169,6 @@ pub fn replay(engine: &str, v: &Value) -> i32 {
         "labelgen" => labelgen::replay(v),
         "proggen" => proggen::replay(v),
         "treegen" => treegen::replay(v),
-        _ => {
-            println!("unknown engine '{engine}' in replay file");
-            2
-        }
+        other => families::replay(other, v),
     }
 }
